@@ -116,7 +116,7 @@ func keyCands() []keyCand {
 	for w := 1; w <= 4; w++ {
 		out = append(out, keyCand{w, keyBytes(cWrappers[w])})
 		for e := 1; e <= 3; e++ {
-			out = append(out, keyCand{w*1000 + e, deriveEventKey(keyBytes(cWrappers[w]), fmt.Sprintf("ev%d", e))})
+			out = append(out, keyCand{w*1000 + e, deriveEventKey(keyBytes(cWrappers[w]), fmt.Sprintf("Ev-%d", e))})
 		}
 	}
 	return out
@@ -183,7 +183,7 @@ func mkPayload(o COp) interface{} {
 	if o.EWI {
 		id := ""
 		if o.EvID > 0 {
-			id = fmt.Sprintf("ev%d", o.EvID)
+			id = fmt.Sprintf("Ev-%d", o.EvID)
 		}
 		return &CEwi{E1: string(d(0)), E2: d(1), H1: string(d(2)), H2: d(3), E3: string(d(4)), id: id, salt: poolBytes("salt", o.S), info: poolBytes("info", o.I)}
 	}
